@@ -411,14 +411,15 @@ pub fn check_c12(input: &[u8], seen: &mut Seen) -> (Vec<Violation>, String) {
     }
     // classification helpers for a differing file patch
     let cause_for = |a: &FpView| -> &'static str {
-        if name_special(&a.old) || name_special(&a.new) { "name-needs-quoting" }
-        else if a.hunks.is_empty() && !a.rename && a.old_mode.is_none() && a.new_mode.is_none() { "hunkless-noop-dropped" }
+        if a.hunks.is_empty() && !a.rename && a.old_mode.is_none() && a.new_mode.is_none() && (a.old_hash.is_none() || a.new_hash.is_none()) { "hunkless-noop-dropped" }
+        else if name_special(&a.old) || name_special(&a.new) { "name-needs-quoting" }
         else { "other" }
     };
     let p2 = match catch_unwind(AssertUnwindSafe(|| parse_patch(&w1, 0, false))) {
         Ok(Ok(p)) => p,
         Ok(Err(e)) => {
-            let cause = v1.iter().map(|f| cause_for(f)).find(|c| *c != "other").unwrap_or("other");
+            let causes: Vec<&'static str> = v1.iter().map(|f| cause_for(f)).collect();
+            let cause = if causes.contains(&"hunkless-noop-dropped") { "hunkless-noop-dropped" } else { causes.iter().cloned().find(|c| *c != "other").unwrap_or("other") };
             out.push(Violation::new("C12", "written-form-rejected", format!("parser rejects the written form: {}; written: {}", e, jstr(&w1))).with("cause", cause));
             return (out, "ok".to_string());
         }
@@ -426,7 +427,8 @@ pub fn check_c12(input: &[u8], seen: &mut Seen) -> (Vec<Violation>, String) {
     };
     let v2 = view(&p2);
     if v1.len() != v2.len() {
-        let cause = v1.iter().map(|f| cause_for(f)).find(|c| *c != "other").unwrap_or("other");
+        let causes: Vec<&'static str> = v1.iter().map(|f| cause_for(f)).collect();
+            let cause = if causes.contains(&"hunkless-noop-dropped") { "hunkless-noop-dropped" } else { causes.iter().cloned().find(|c| *c != "other").unwrap_or("other") };
         out.push(Violation::new("C12", "file-patch-count", format!("{} file patches became {}; written: {}", v1.len(), v2.len(), jstr(&w1))).with("cause", cause));
         return (out, "ok".to_string());
     }
